@@ -240,6 +240,7 @@ def own_objective(state, customers, vehicles):
     return 1.0 * dist + 1000.0 * tw + 1000.0 * cap + 10000.0 * sync + 100000.0 * len(state.unassigned)
 
 
+N_VEHICLES = [2]
 POS = ((1.0, 0.0), (0.0, 1.0), (1.0, 1.0))
 WIN = ((0.0, float("inf")), (0.0, 2.0), (3.0, 5.0))
 
@@ -257,7 +258,7 @@ def make_instance(code):
         win = WIN[(d // 2) % 3]
         req = (1, 2)[d // 6]
         custs.append(vrp.Customer(i + 1, POS[i][0], POS[i][1], demand, win[0], win[1], float(i % 2), req))
-    vehicles = [vrp.Vehicle(0, cap), vrp.Vehicle(1, cap)]
+    vehicles = [vrp.Vehicle(i, cap) for i in range(N_VEHICLES[0])]
     return custs, vehicles
 
 
@@ -291,7 +292,7 @@ def vrp_bfs(r, code, depth):
     ops = operators(vrp)
     seen = {canon(init): ()}
     frontier = [(init, ())]
-    wit0 = {"instance_code": code, "customers": [[c.id, c.x, c.y, c.demand, c.tw_start, c.tw_end if c.tw_end != float("inf") else "inf", c.service_time, c.required_vehicles] for c in customers], "capacity": vehicles[0].capacity}
+    wit0 = {"instance_code": code, "customers": [[c.id, c.x, c.y, c.demand, c.tw_start, c.tw_end if c.tw_end != float("inf") else "inf", c.service_time, c.required_vehicles] for c in customers], "capacity": vehicles[0].capacity, "vehicles": len(vehicles)}
     for e in vrp_invariant(init, customers):
         r["violations"].append(viol("VRPState.from_problem", e[0], dict(wit0, history=[]), f"initial state: {e[1]}"))
     for level in range(depth):
@@ -321,6 +322,10 @@ def vrp_bfs(r, code, depth):
                         r["violations"].append(viol(name, "argument_mutated", wit, f"instance {code}, history {h2}: the operator changed the state it was given"))
                         before = freeze(state)
                     errs = vrp_invariant(new, customers)
+                    if not errs and hasattr(vrp, "vrp_objective"):
+                        got, want = vrp.vrp_objective(new), own_objective(new, customers, vehicles)
+                        if abs(got - want) > 1e-6 * (1 + abs(want)):
+                            errs.append(("objective_mismatch", f"vrp_objective(state) = {got}, weighted sum recomputed from routes/unassigned = {want}; routes {new.routes}, unassigned {sorted(new.unassigned)}"))
                     r["outcomes"][f"{name}:{'ok' if not errs else errs[0][0]}"] += 1
                     if any(new.routes):
                         r["nontrivial"] += 1
@@ -343,7 +348,8 @@ def vrp_bfs(r, code, depth):
 
 
 def _vrp_chunk(params, lo, hi):
-    depth, off, stride = params
+    depth, off, stride = params[:3]
+    N_VEHICLES[0] = params[3] if len(params) > 3 else 2
     r = new_result()
     for idx in range(lo, hi):
         vrp_bfs(r, off + idx * stride, depth)
@@ -360,6 +366,7 @@ def _solve_chunk(params, lo, hi):
     vrp = importlib.import_module("solvor.vrp")
     lns = importlib.import_module("solvor.lns")
     stride, scripted = params
+    N_VEHICLES[0] = 2
     r = new_result()
     real = (vrp.Random, lns.Random)
     try:
@@ -440,6 +447,8 @@ def jobs(tier, seed):
     stride = 7 if q else 1
     depth = 3 if q else 4
     js.append(Job(f"vrp_operator_bfs_depth{depth}", (N_INST + stride - 1 - (seed % stride)) // stride if q else N_INST, _vrp_chunk, (depth, seed % stride if q else 0, stride), chunk=4, describe=f"BFS over the exported operators from VRPState.from_problem; instances code = offset + k*{stride} of the {N_INST}-instance family (offset rotates with VERIF_SEED)"))
+    st3 = 97 if q else 11
+    js.append(Job(f"vrp_operator_bfs_3vehicles_depth{depth}", N_INST // st3, _vrp_chunk, (depth, seed % st3, st3, 3), chunk=2, describe="same BFS with three vehicles (a customer can end up on a vehicle outside a stale sync assignment)"))
     sst = 24 if q else 4
     js.append(Job("solve_vrptw_scripted", N_INST // sst, _solve_chunk, (sst, True), chunk=2, describe="solve_vrptw max_iter 1..2, RNG answers enumerated to 2 deviations"))
     js.append(Job("solve_vrptw_seeded", N_INST // sst, _solve_chunk, (sst, False), chunk=4, describe="solve_vrptw max_iter 40, seeds 0..3, run twice"))
@@ -449,6 +458,7 @@ def jobs(tier, seed):
 def replay(v):
     w = v["witness"]
     r = new_result()
+    N_VEHICLES[0] = len(w["customers"]) and (3 if w.get("vehicles") == 3 else 2) if "customers" in w else 2
     if v["function"] == "solve_job_shop":
         run_jobshop_instance(r, [tuple(tuple(o) for o in job) for job in w["jobs"]], True)
     elif v["function"] == "solve_vrptw":
